@@ -1,6 +1,7 @@
 package main
 
 import (
+	"encoding/json"
 	"flag"
 	"fmt"
 	"os"
@@ -28,20 +29,43 @@ func main() {
 	case "check":
 		os.Exit(cmdCheck(os.Args[2:]))
 	case "replay":
-		// gosym replay <PROP> <harness> <dir-with-model.json>: native run of a stored instance
-		prop := findProp(os.Args[2])
+		// gosym replay <dir-with-model.json>: native run of a stored counterexample or witness against the real build
+		dir := os.Args[2]
+		bs, err := os.ReadFile(dir + "/model.json")
+		if err != nil {
+			fmt.Fprintln(os.Stderr, err)
+			os.Exit(2)
+		}
+		var doc struct {
+			Harness   string `json:"harness"`
+			Property  string `json:"property"`
+			Assertion string `json:"assertion"`
+		}
+		json.Unmarshal(bs, &doc)
+		if len(os.Args) >= 5 { // legacy form: replay <PROP> <harness> <dir>
+			doc.Property, doc.Harness, dir = os.Args[2], os.Args[3], os.Args[4]
+		}
+		prop := findProp(doc.Property)
+		if prop == nil {
+			fmt.Fprintln(os.Stderr, "unknown property in model.json:", doc.Property)
+			os.Exit(2)
+		}
 		var spec *HarnessSpec
 		for _, h := range prop.Harnesses {
-			if h.Name == os.Args[3] {
+			if h.Name == doc.Harness {
 				hh := *h
 				hh.Prop = prop.ID
 				spec = &hh
 			}
 		}
-		v := &Violation{Harness: os.Args[3], Label: "(replay)"}
-		fmt.Println(nativeReplay(nil, prop, spec, v, os.Args[4]))
-		bs, _ := os.ReadFile(os.Args[4] + "/replay.log")
-		os.Stdout.Write(bs)
+		v := &Violation{Harness: doc.Harness, Label: doc.Assertion}
+		verdict := nativeReplay(nil, prop, spec, v, dir)
+		fmt.Println("replay:", verdict)
+		out, _ := os.ReadFile(dir + "/replay.log")
+		os.Stdout.Write(out)
+		if strings.HasPrefix(verdict, "reproduced") {
+			os.Exit(1)
+		}
 	case "list":
 		for _, p := range allProps() {
 			fmt.Println(p.ID, len(p.Harnesses), "harnesses", p.Pkgs)
